@@ -25,13 +25,13 @@ impl From<&serde_json::Value> for JsonShape {
             serde_json::Value::Number(_) => Self::Number { optional: false },
             serde_json::Value::String(_) => Self::String { optional: false },
             serde_json::Value::Array(values) => {
+                let values: Vec<Self> = values.iter().map(Self::from).collect();
                 if values.len() > 1
                     && values
                         .iter()
-                        .map(Self::from)
                         .all(|value| matches!(value, Self::Object { .. }))
                 {
-                    let mut iter = values.iter().map(Self::from);
+                    let mut iter = values.iter().cloned();
                     let Some(Self::Object { content, .. }) = iter.next() else {
                         unreachable!("Guaranteed to be Object by all");
                     };
@@ -73,23 +73,15 @@ impl From<&serde_json::Value> for JsonShape {
                     }
                 } else if !values.is_empty()
                     && (values.len() == 1
-                        || values
-                            .windows(2)
-                            .map(|val| {
-                                (
-                                    Self::from(val.first().unwrap()),
-                                    Self::from(val.get(1).unwrap()),
-                                )
-                            })
-                            .all(|val| val.0 == val.1))
+                        || values.windows(2).all(|val| val[0] == val[1]))
                 {
                     Self::Array {
-                        r#type: Box::new(Self::from(values[0].clone())),
+                        r#type: Box::new(values[0].clone()),
                         optional: false,
                     }
                 } else if values.len() > 1 {
                     Self::Tuple {
-                        elements: values.iter().map(Self::from).collect(),
+                        elements: values,
                         optional: false,
                     }
                 } else {
